@@ -153,6 +153,21 @@ def assess(w, target, triple, col=None):
     t_conf = measure(w, target, pumped(triple, first_slow))
     t_half = max(measure(w, target, pumped(triple, first_slow // 2)), 0.0002)
     t_3q = max(measure(w, target, pumped(triple, (first_slow * 3) // 4)), 0.0002)
+    if t_conf == float('inf') and t_half == float('inf'):
+        # killed at every size tried: not growth but a call that does not return.  Ask once more, in fresh workers, for
+        # the shortest input of the family (one repetition); killed again = violation (a normal call takes microseconds,
+        # the kill comes after KILL seconds)
+        tiny = triple[0] + triple[1] + triple[2]
+        w.close()
+        w.spawn()
+        t_tiny = measure(w, target, tiny)
+        w.close()
+        w.spawn()
+        t_tiny2 = measure(w, target, tiny) if t_tiny == float('inf') else t_tiny
+        if t_tiny == float('inf') and t_tiny2 == float('inf'):
+            return 'violation', (f'{target[:2]} input {tiny!r} ({len(tiny)} chars) does not return: the worker had to be killed after '
+                                 f'{KILL:.0f} s, twice, and so for every longer member of the family up to {first_slow} chars')
+        t_half = max(t_tiny, 0.0002)
     slow_rule = t_conf > SLOW and t_conf / t_half >= 4.0
     expo_rule = t_conf > 0.05 and t_conf / t_half >= 64 and t_conf / t_3q >= 6
     if slow_rule or expo_rule:
